@@ -1,6 +1,7 @@
 package checks
 
 import (
+	"context"
 	"encoding/json"
 	"fmt"
 	"os"
@@ -245,6 +246,7 @@ func C17RacePass() {
 	// Cancel against a running loop
 	for _, p := range c17CancelProgs() {
 		cs := p.Case()
+		cs.Gas = 50_000_000 // finite: the pass ends even if Cancel is ignored
 		env := world.NewA(cs, world.AOpts{})
 		wg.Add(1)
 		go func() { defer wg.Done(); env.Call(cs) }()
@@ -379,9 +381,16 @@ func init() {
 					w.Extra("race_pass_skipped", 1)
 					return
 				}
-				cmd := exec.Command(bin, "-prop", "C17", "-racepass")
+				ctx, cancel := context.WithTimeout(context.Background(), 5*time.Minute)
+				defer cancel()
+				cmd := exec.CommandContext(ctx, bin, "-prop", "C17", "-racepass")
 				cmd.Env = append(os.Environ(), "GORACE=halt_on_error=1 exitcode=66")
 				out, err := cmd.CombinedOutput()
+				if ctx.Err() != nil {
+					w.Notes = append(w.Notes, "race pass did not finish within 5 minutes: auxiliary evidence missing for this run")
+					w.Extra("race_pass_timed_out", 1)
+					return
+				}
 				w.Extra("race_pass_runs", 1)
 				if strings.Contains(string(out), "DATA RACE") {
 					txt := string(out)
